@@ -214,6 +214,67 @@ func raceMain(args []string) {
 				}
 			}
 		}
+	} else if *mode == "arrays" {
+		// per-goroutine data holding Go ARRAYS (values, not slices) of the same type with different contents, sliced, ranged
+		// over and bound by the template: slicing an array must not go through anything shared between executions
+		src := `<p :with="s := ${row[:]}"><i :range="_, v : s" :text="${v}">o</i><b :text="${row[1:3]}">o</b><u :range="_, n : nums[2:]" :text="${n}">o</u><em :text="${len(row[:2])}${s[3]}">o</em></p>`
+		for round := 0; round < *rounds; round++ {
+			m := html.NewTplManager()
+			if err := m.Add("t", strings.NewReader(src)); err != nil {
+				fmt.Println("RACE-RESULT " + `{"executions":0,"mismatches":1,"samples":["array template does not load"]}`)
+				return
+			}
+			shared, _ := m.GetTemplate("t")
+			G := 2 + r.n(10)
+			var wg sync.WaitGroup
+			start := make(chan struct{})
+			got, want := make([]string, G), make([]string, G)
+			datas := make([]map[string]any, G)
+			for g := 0; g < G; g++ {
+				row := [4]string{fmt.Sprint("a", g, round), fmt.Sprint("b", g), fmt.Sprint("c", g), fmt.Sprint("d", g)}
+				nums := [5]int{g, g + 1, g + 2, g + 3, g + 4}
+				datas[g] = map[string]any{"row": row, "nums": nums}
+				want[g] = fmt.Sprintf("<p><i>%s</i><i>%s</i><i>%s</i><i>%s</i><b>[%s %s]</b><u>%d</u><u>%d</u><u>%d</u><em>2%s</em></p>", row[0], row[1], row[2], row[3], row[1], row[2], g+2, g+3, g+4, row[3])
+			}
+			for g := 0; g < G; g++ {
+				wg.Add(1)
+				go func(g int) {
+					defer wg.Done()
+					t := shared
+					if g%2 == 1 {
+						t, _ = m.GetTemplate("t")
+					}
+					if round%3 != 0 {
+						<-start
+					}
+					for k := 0; k < 5; k++ {
+						w := &chunkWriter{failAt: -1}
+						if err := t.Execute(w, datas[g]); err != nil {
+							got[g] = strings.Join(w.chunks, "") + " ERR " + err.Error()
+							return
+						}
+						got[g] = strings.Join(w.chunks, "")
+						if got[g] != want[g] {
+							return
+						}
+					}
+				}(g)
+				if round%3 == 0 {
+					wg.Wait()
+				}
+			}
+			close(start)
+			wg.Wait()
+			for g := 0; g < G; g++ {
+				total++
+				if got[g] != want[g] {
+					mismatches++
+					if len(samples) < 5 {
+						samples = append(samples, J{"tpl": src, "goroutines": G, "serial_round": round%3 == 0, "alone": want[g], "here": trunc(got[g], 300)})
+					}
+				}
+			}
+		}
 	} else if *mode == "loopvars" {
 		// executions that FAIL inside a loop body next to executions of another template of the same manager whose loops use
 		// other variable names and whose bodies mention the first one's variable name (bound in their own data, or nowhere):
@@ -552,6 +613,9 @@ func propC15(c *ctx) error {
 		return err
 	}
 	if err := run("loopvars", c.n(30, 900)); err != nil {
+		return err
+	}
+	if err := run("arrays", c.n(30, 900)); err != nil {
 		return err
 	}
 	return run("render", c.n(120, 5000))
